@@ -241,3 +241,13 @@ def check(facts, rep, tier, cfg):
     for v in sub.violations:
         if v["rule"] == "C05.R1":
             rep.bad("C02.R7", v["key"].split("/", 1)[1], v["where"], v["msg"])
+    # ---- R8 flow control is a precondition of loss-free delivery: a frame sent beyond the receiver's window is dropped and the flow reset
+    rep.rule("C02.R8", "credit discipline (= C03.R1..R7): every violation of the flow-control rules lets a frame exceed the receiver's queue, "
+                       "where it is dropped although the write succeeded")
+    sub = type(rep)(rep.prop, rep.tier, rep.config)
+    rules_c03.check(facts, sub, tier, cfg)
+    rep.paths += sub.paths
+    for i in sub.instances:
+        rep.ok("C02.R8", "%s/%s" % (i["rule"], i["key"]), i["where"], i["detail"], nontrivial=False)
+    for v in sub.violations:
+        rep.bad("C02.R8", v["key"], v["where"], v["msg"])
